@@ -390,34 +390,82 @@ impl Property for C09 {
                 return done(c, fail("C09.document-symbol-after-relayout", format!("server {:?}, expected {:?}", got, want)));
             }
         }
+        let text_at = |cur: &Vec<(String, String)>, path: &str| cur.iter().find(|f| f.0 == path).map(|f| f.1.clone()).unwrap_or_default();
+        let diag_mismatch = |c: &Client, w: &Workspace, cur: &Vec<(String, String)>| -> Option<String> {
+            let published = c.last_diagnostics();
+            for (fid, ds) in w.analysis().diagnostics() {
+                let path = w.fs.path_of(fid)?;
+                let tx = text_at(cur, &path);
+                let rp = RefPos::new(&tx);
+                let want = sorted(ds.iter().map(|d| json!({"range": lsp_range(&rp, r2(d.location.range).0, r2(d.location.range).1), "message": d.message})).collect());
+                let got = published.get(&format!("file://{path}")).map(|x| x.1.clone());
+                if got.as_ref() != Some(&want) {
+                    return Some(format!("diagnostics of {path}: {got:?}, expected {want:?}"));
+                }
+            }
+            None
+        };
+        // ---- an included file that is not open changes on disk (two lines in front move every line of
+        // it), then the root is sent again unchanged: what the server says about that file afterwards is
+        // read by the client in the text that is on disk now
+        let mut disk = sess.files.clone();
+        let mut sent = 1u64;
+        if new_root != root_text {
+            disk[0].1 = new_root.clone();
+            sent = 2;
+        }
+        if disk.len() >= 2 {
+            let k = disk.len() - 1;
+            let moved = format!("// moved\n\n{}", disk[k].1);
+            sess.tw.write(&p.files[k].0, &moved);
+            disk[k].1 = moved;
+            let cur_root = disk[0].1.clone();
+            c.did_change(&root_uri, 3, &cur_root);
+            sent += 1;
+            if !sched.wait_idle(sent, Duration::from_secs(60)) || !c.barrier(&root_uri) {
+                return done(c, Verdict::Skip("not-idle"));
+            }
+            let ws_d = Workspace::new(&disk, &disk[0].0);
+            let a_d = ws_d.analysis();
+            if diag_mismatch(&c, &ws_d, &disk).is_some() {
+                std::thread::sleep(Duration::from_millis(150));
+                if !sched.wait_idle(sent, Duration::from_secs(60)) || !c.barrier(&root_uri) {
+                    return done(c, Verdict::Skip("not-idle"));
+                }
+                if let Some(d) = diag_mismatch(&c, &ws_d, &disk) {
+                    return done(c, fail("C09.diagnostics-after-disk-change", format!("after {} changed on disk and the root was sent again: {d}", disk[k].0)));
+                }
+            }
+            let d_rp = RefPos::new(&cur_root);
+            let mut into_moved = 0;
+            for &(s0, e0) in id_tokens_by_parse(&cur_root).iter().take(150) {
+                let at = (s0 + e0) / 2;
+                let Some(d) = a_d.goto_definition(pos(ws_d.root, at)) else { continue };
+                let dpath = ws_d.fs.path_of(d.file).unwrap_or_default();
+                if dpath != disk[k].0 {
+                    continue;
+                }
+                into_moved += 1;
+                let rp = RefPos::new(&disk[k].1);
+                let want = json!({"uri": format!("file://{dpath}"), "range": lsp_range(&rp, r2(d.range).0, r2(d.range).1)});
+                let params = json!({"textDocument": {"uri": root_uri}, "position": lsp_pos(&d_rp, at)});
+                let Ok(r) = c.request("textDocument/definition", params, t) else { return done(c, Verdict::Skip("no-response")) };
+                if r.get("error").is_some() || r["result"] != want {
+                    return done(c, fail("C09.definition-after-disk-change", format!("definition at root offset {at} ({:?}) after {dpath} changed on disk and the root was sent again: server {}, expected {want}", &cur_root[s0..e0], r)));
+                }
+            }
+            if into_moved > 0 {
+                labels.push("definitions into a file changed on disk");
+            }
+        }
         // ---- third part: an included document is opened as well. While it is the last touched document
         // it is the root of its own workspace; after the former root is touched again it is an open
         // *included* document, and requests about it are answered from the root's workspace.
         if sess.files.len() >= 2 {
-            let mut cur = sess.files.clone();
-            let mut sent = 1u64;
-            if new_root != root_text {
-                cur[0].1 = new_root.clone();
-                sent = 2;
-            }
+            let mut cur = disk.clone();
             let (h_path, h_text) = cur[1].clone();
             let h_uri = format!("file://{h_path}");
             let h_rp = RefPos::new(&h_text);
-            let text_at = |cur: &Vec<(String, String)>, path: &str| cur.iter().find(|f| f.0 == path).map(|f| f.1.clone()).unwrap_or_default();
-            let diag_mismatch = |c: &Client, w: &Workspace, cur: &Vec<(String, String)>| -> Option<String> {
-                let published = c.last_diagnostics();
-                for (fid, ds) in w.analysis().diagnostics() {
-                    let path = w.fs.path_of(fid)?;
-                    let tx = text_at(cur, &path);
-                    let rp = RefPos::new(&tx);
-                    let want = sorted(ds.iter().map(|d| json!({"range": lsp_range(&rp, r2(d.location.range).0, r2(d.location.range).1), "message": d.message})).collect());
-                    let got = published.get(&format!("file://{path}")).map(|x| x.1.clone());
-                    if got.as_ref() != Some(&want) {
-                        return Some(format!("diagnostics of {path}: {got:?}, expected {want:?}"));
-                    }
-                }
-                None
-            };
             c.did_open(&h_uri, &h_text);
             sent += 1;
             if !sched.wait_idle(sent, Duration::from_secs(60)) || !c.barrier(&h_uri) {
